@@ -276,7 +276,14 @@ let verdict case impl =
          let dlen = (match dc with Some h when h <> "!" -> String.length h / 2 | _ -> 0) in
          (* the codec's own buffer: at most 255 x body (LZ4) / 32 x body (Snappy), enforced by frame::decompress *)
          let codec_buffer = if compressed then expansion * len else 0 in
-         if maxreq > malloc + 64 * (len + dlen) + 65536 + codec_buffer then
+         (* a vector column under the target Vec<Option<i32>>: one 8-byte Option per DECLARED dimension
+            (an exhausted cell yields null elements), whatever the cell holds *)
+         let typed_vector () = (match fst (decode decompress ft v2 compression stream) with
+             | ODone { d_resp = RResult (ResRows r); _ } when (not pair) && tuple_target r.rr_cols = n_of_i 5 ->
+               List.fold_left (fun a c -> match c.cs_type with TVector (_, d) -> a + 16 * int_of_n d | _ -> a) 0 r.rr_cols
+             | _ -> 0) in
+         let base = malloc + 64 * (len + dlen) + 65536 + codec_buffer in
+         if maxreq > base && maxreq > base + typed_vector () then
            Printf.sprintf "diff alloc-accounting maxreq=%d model_alloc=%d len=%d" maxreq malloc len
          else if small = "overflow" || small = "differ" then
            (* the model bounds the recursion by 257 levels: a quarter (512 KiB) of the 2 MiB stack must do *)
